@@ -59,7 +59,7 @@ static const char* errKind(const std::string& m)
     {"unsupported markup declaration", "badDecl"},
     {"name too long", "nameTooLong"},
     {"expected quote", "expectedQuote"},
-    {"expected '\"' or '\\'' for attribute value", "expectedQuoteChar"},
+    {"expected '\"' or ''' for attribute value", "expectedQuoteChar"},
     {"unterminated attribute value", "unterminatedAttr"},
     {"attribute value too long", "attrTooLong"},
     {"unexpected end in attributes", "eofInAttrs"},
